@@ -28,7 +28,7 @@ python3 - "$P" "$N" "$TAKEN" <<'PY'
 import sys
 p, n, taken = sys.argv[1:4]
 t = open('/tmp/seed/PROMPT.tmpl').read() if False else None
-src = open('/tmp/seed/C02b.prompt.txt').read()
+src = open('/verif/tools/seed_prompt_example.txt').read()
 head, rest = src.split('-----\n', 1)
 _, tail = rest.split('-----\n', 1)
 tail = tail.split('Additional constraint:')[0]
